@@ -2,11 +2,12 @@
    qmail-send del_dochan() against their models; the oracle is `Nq.Spec.TB` (the predicates the
    theorems of Props/C18.lean are stated with) evaluated on the implementation's traces.
    Input lines (see the harness headers):
-     C <chunk> <plan> <in> <trace>
+     C <chunk> <plan> <in> <scans> <trace>
      S <l|r> <plan> <script> <trace>
      D <c> <jobs> <slots> <plan> <chunk> <stream> <trace>                                       -/
 import Drv.Util
 import Nq.Spec.TrustBoundary
+import Nq.Spec.ReportRef
 
 open Nq Drv
 
@@ -32,12 +33,14 @@ open Nq.Clean
 def render : List Ev → List String
   | [] => []
   | .cleanup :: r => "o706964" :: render r
+  | .cleanupEnd :: r => "c" :: render r
   | .unlink p :: r => ("u" ++ hex p) :: render r
   | .status b :: r => ("s" ++ hex [b]) :: render r
 
 def parseEv (tok : String) : Option (List Ev) :=
   match tok.toList with
   | 'o' :: _ => some [.cleanup]
+  | ['c'] => some [.cleanupEnd]
   | 'u' :: h => (unhex (String.ofList h)).map (fun p => [.unlink p])
   | 's' :: h => (unhex (String.ofList h)).map (fun bs => bs.map .status)
   | _ => none
@@ -47,19 +50,48 @@ def parseTrace (toks : List String) : Option (List Ev) :=
     | some e, some l => some (e ++ l)
     | _, _ => none) (some [])
 
-def handle (st : Stats) (chunk planh inh trace : String) : IO Stats := do
-  match planOf planh, unhex inh with
-  | some plan, some inp =>
-    let h := hashBytes inp
+/-- one directory entry `<name-hex>=<atime>` or `<name-hex>=x` (stat fails) -/
+def parseEnt (s : String) : Option PidEnt :=
+  match s.splitOn "=" with
+  | [n, a] => match unhex n with
+      | some name => if a == "x" then some ⟨name, none⟩ else a.toNat?.map (fun t => ⟨name, some t⟩)
+      | none => none
+  | _ => none
+
+/-- one `cleanuppid()` scenario `<now>@<entries>`: entries `!` = opendir fails, `-` = empty directory,
+else entries joined by `+` -/
+def parseScan (s : String) : Option Scan :=
+  match s.splitOn "@" with
+  | [n, e] => match n.toNat? with
+      | none => none
+      | some now =>
+        if e == "!" then some ⟨now, none⟩
+        else if e == "-" then some ⟨now, some []⟩
+        else ((e.splitOn "+").foldr (fun t acc => match parseEnt t, acc with
+            | some x, some l => some (x :: l)
+            | _, _ => none) (some [])).map (fun es => ⟨now, some es⟩)
+  | _ => none
+
+def parseScans (s : String) : Option (List Scan) :=
+  if s == "-" then some [] else
+  (s.splitOn ";").foldr (fun t acc => match parseScan t, acc with
+    | some x, some l => some (x :: l)
+    | _, _ => none) (some [])
+
+def handle (st : Stats) (chunk planh inh scansS trace : String) : IO Stats := do
+  match planOf planh, unhex inh, parseScans scansS with
+  | some plan, some inp, some scans =>
+    let h := hashBytes (inp ++ scansS.toUTF8.toList)
     let fresh := !st.seen.contains h
     let reqs := splitReqs [] inp
     let nontriv := reqs.any (fun q => q.length ≥ 7)
     let mut st := { st with cases := st.cases + 1, seen := st.seen.insert h,
                             nontrivial := st.nontrivial + (if fresh && nontriv then 1 else 0) }
     st := st.bump "clean"
-    let model := ",".intercalate (render (run inp plan) ++ ["e0"])
+    if scans.any (fun sc => match sc.ents with | some (_ :: _) => true | _ => false) then st := st.bump "clean_pid_populated"
+    let model := ",".intercalate (render (run inp plan scans) ++ ["e0"])
     if model != trace then
-      st ← disagree st s!"kind=clean in={inh} chunk={chunk} plan={planh} impl={trace} model={model}"
+      st ← disagree st s!"kind=clean in={inh} chunk={chunk} plan={planh} scans={scansS} impl={trace} model={model}"
     -- cross-check of the two decimal printers (model's fmt_ulong vs Lean's Nat printer)
     for q in reqs do
       let ds := (q.drop 5).dropLast
@@ -70,17 +102,18 @@ def handle (st : Stats) (chunk planh inh trace : String) : IO Stats := do
     let body := toks.dropLast
     match parseTrace body, toks.getLast? with
     | some evs, some "e0" =>
-      if !(Nq.Spec.TB.cleanOK reqs evs) then
-        st ← oracleFail st s!"kind=clean in={inh} chunk={chunk} plan={planh} impl={trace} requests={reqs.length}"
+      if !(Nq.Spec.TB.cleanOK reqs scans evs) then
+        st ← oracleFail st s!"kind=clean in={inh} chunk={chunk} plan={planh} scans={scansS} impl={trace} requests={reqs.length}"
       else
         if evs.any (fun e => match e with | .unlink _ => true | _ => false) then st := st.bump "clean_unlinking"
+        if evs.any (fun e => match e with | .unlink p => p.take 4 == PIDDIR | _ => false) then st := st.bump "clean_pid_unlinked"
         if evs.any (fun e => e == .status stERR) then st := st.bump "clean_unlink_failed"
       if fresh && st.samples < 2 && (paths evs).length ≥ 2 then
-        IO.println s!"SAMPLE kind=clean in={inh} trace={trace}"
+        IO.println s!"SAMPLE kind=clean in={inh} scans={scansS} trace={trace}"
         st := { st with samples := st.samples + 1 }
-    | _, _ => st ← oracleFail st s!"kind=clean in={inh} chunk={chunk} plan={planh} impl={trace} (abnormal end or unparsable trace)"
+    | _, _ => st ← oracleFail st s!"kind=clean in={inh} chunk={chunk} plan={planh} scans={scansS} impl={trace} (abnormal end or unparsable trace)"
     return st
-  | _, _ => disagree st s!"unparsable C line"
+  | _, _, _ => disagree st s!"unparsable C line"
 end CleanD
 
 /-! ### spawn -/
@@ -263,7 +296,7 @@ def handle (st : Stats) (cS jobsS slotsS planh chunk inh trace : String) : IO St
       let okFlags := flags == "-" || (flags.length == slots.length &&
         (flags.toList.zip slots).all (fun (f, s) => f == '0' || s.isSome))
       let freed := inflightN - (flags.toList.filter (· == '1')).length
-      let ok := Nq.Spec.TB.sendOK c jobs slots evs && Nq.Spec.TB.sendStrict c jobs slots inp evs && okFlags && (dlenS.toNat?.getD (Nq.Gen.REPORTMAX + 1)) ≤ Nq.Gen.REPORTMAX &&
+      let ok := Nq.Spec.TB.sendOK c jobs slots evs && Nq.Spec.TB.sendStrictDecl c jobs slots inp evs && Nq.Spec.TB.sendStrict c jobs slots inp evs && okFlags && (dlenS.toNat?.getD (Nq.Gen.REPORTMAX + 1)) ≤ Nq.Gen.REPORTMAX &&
                 (Nq.Spec.TB.marksOf evs).length ≤ freed
       if !ok then
         st ← oracleFail st s!"kind=send in={inh} c={cS} jobs={jobsS} slots={slotsS} plan={planh} chunk={chunk} impl={trace}"
@@ -280,10 +313,10 @@ end SendD
 
 def handle (st : Stats) (line : String) : IO Stats := do
   match fields line with
-  | ["C", chunk, plan, inh, trace] => CleanD.handle st chunk plan inh trace
+  | ["C", chunk, plan, inh, scans, trace] => CleanD.handle st chunk plan inh scans trace
   | ["S", kind, plan, script, trace] => SpawnD.handle st kind plan script trace
   | ["D", c, jobs, slots, plan, chunk, inh, trace] => SendD.handle st c jobs slots plan chunk inh trace
-  | ["C", chunk, plan, inh] => oracleFail st s!"kind=clean in={inh} chunk={chunk} plan={plan} impl=(no output: the program crashed on this input)"
+  | ["C", chunk, plan, inh, scans] => oracleFail st s!"kind=clean in={inh} chunk={chunk} plan={plan} scans={scans} impl=(no output: the program crashed on this input)"
   | ["S", kind, plan, script] => oracleFail st s!"kind=spawn{kind} in={script} plan={plan} impl=(no output: the program crashed on this input)"
   | ["D", c, jobs, slots, plan, chunk, inh] => oracleFail st s!"kind=send in={inh} c={c} jobs={jobs} slots={slots} plan={plan} chunk={chunk} impl=(no output: the program crashed on this input)"
   | _ => disagree st s!"unparsable line {line.take 400}"
